@@ -9,6 +9,12 @@ package nistkdf
 //   K_OUT = leftmost L bits of K(1) || ... || K(n)
 //@ func internal/nistkdf.KDF
 //@   params hash shSe contextRand bits
+//@   local digest = call:crypto/hmac.New#1
+//@   local h = Phi#1
+//@   local i = BinOp#10 | Phi#4
+//@   local input = Slice#1 | call:builtin.append#2 | call:builtin.append#3 | call:builtin.append#4 | call:encoding/binary.bigEndian.AppendUint16#1
+//@   local n = BinOp#2 | BinOp#6 | Phi#2
+//@   local result = Phi#3 | call:builtin.append#5
 //@   props C14 C10(sweep)
 //@   sweep bounds,panic,make,nilmem
 //@   requires @hash hsz(u(hash)) == 32 || hsz(u(hash)) == 48
